@@ -193,6 +193,7 @@ type vfWorld struct {
 	offlineDigest string
 	cacheSynced   map[string]bool
 	agentSim      *vfAgent
+	okta          *simOkta
 	pendingMods   []string // request modifiers of the step being prepared (precookie:, fwd:, peer:)
 	listenerUp    chan struct{} // closed when the emulated main() received SignerIsReady (the service listener starts then)
 	readySignals  atomic.Int32
@@ -295,6 +296,9 @@ func (w *vfWorld) writeConfig() (string, error) {
 			urls = append(urls, fmt.Sprintf("ldaps://ldap%d.sim", i+1))
 		}
 		fmt.Fprintf(&b, "ldap:\n  bind_pattern: \"uid=%%s,ou=people,dc=sim\"\n  ldap_target_urls: %q\n  disable_password_cache: %v\n", strings.Join(urls, ","), c.NoPwCache)
+	}
+	if c.PwBackend == "okta" {
+		b.WriteString("okta:\n  domain: \"sim\"\n  enable_2fa: true\n")
 	}
 	if c.GroupsLDAP {
 		b.WriteString("userinfo_sources:\n  ldap:\n    bind_username: \"cn=km\"\n    bind_password: \"x\"\n    ldap_target_urls: \"ldaps://dir1.sim\"\n    user_search_base_dns: [\"ou=people,dc=sim\"]\n    user_search_filter: \"(uid=%s)\"\n    group_search_base_dns: [\"ou=groups,dc=sim\"]\n    group_search_filter: \"(member=%s)\"\n")
@@ -403,6 +407,9 @@ func (w *vfWorld) build() error {
 	vfhook.VipValidateUserOTP = w.vipsim.validateOTP
 	vfhook.VipStartUserVIPPush = w.vipsim.startPush
 	vfhook.VipPushHasBeenApproved = w.vipsim.pushApproved
+	// everything that goes through http.DefaultClient (the Okta authenticator does) meets the simulated service
+	w.okta = newSimOkta(w)
+	http.DefaultClient.Transport = w.okta
 
 	// globals of package main
 	logger = vfNopLogger{}
@@ -447,7 +454,7 @@ func (w *vfWorld) build() error {
 	case "", "counting":
 		w.pw = &countingPw{w: w}
 		state.passwordChecker = w.pw
-	case "htpasswd", "ldap":
+	case "htpasswd", "ldap", "okta":
 		// the loader already installed the real authenticator
 	}
 	if w.cfg.Email {
